@@ -13,6 +13,7 @@ import (
 // assembled server: the operation is carried out only when the caller's permission covers exactly
 // that operation on exactly the addressed account or wallet, and it touches nothing else.
 func ManagersThroughTheChain() {
+	vsym.ForbidCrash() // a panic in an interceptor or handler kills the daemon
 	perms := map[string][]*checker.Permissions{"client1": {
 		{Path: "W/a", Operations: []string{"Unlock account"}},
 		{Path: "W/b", Operations: []string{"Lock account"}},
@@ -25,7 +26,7 @@ func ManagersThroughTheChain() {
 	a.Pass, b.Pass = "pass", "pass"
 	d.in.Wallet.Unlocked = true
 	cctx := callCtx(net.IPv4(10, 0, 0, 9), "client1", nil)
-	op := vsym.Choose("operation", 6)
+	op := vsym.Choose("operation", 8)
 	target := []string{"W/a", "W/b"}[vsym.Choose("target", 2)]
 	ok := false
 	switch op {
@@ -52,6 +53,17 @@ func ManagersThroughTheChain() {
 		res, err := vsym.Invoke("/v1.WalletManager/Lock", cctx, &pb.LockWalletRequest{Wallet: "W/b"})
 		ok = err == nil && res.(*pb.LockWalletResponse).GetState() == pb.ResponseState_SUCCEEDED
 		vsym.Assert("A7-wallet-operation-decided-on-the-wallet-it-resolves-to", !ok || !d.in.Wallet.Unlocked)
+	case 6:
+		// a wallet that does not exist, an empty wallet name
+		name := []string{"Nope", ""}[vsym.Choose("unknown-wallet", 2)]
+		res, err := vsym.Invoke("/v1.WalletManager/Lock", cctx, &pb.LockWalletRequest{Wallet: name})
+		ok = err == nil && res.(*pb.LockWalletResponse).GetState() == pb.ResponseState_SUCCEEDED
+		vsym.Assert("A9-unknown-wallet-refused", !ok && d.in.Wallet.Unlocked)
+	case 7:
+		name := []string{"Nope", ""}[vsym.Choose("unknown-wallet", 2)]
+		res, err := vsym.Invoke("/v1.WalletManager/Unlock", cctx, &pb.UnlockWalletRequest{Wallet: name, Passphrase: []byte("pass")})
+		ok = err == nil && res.(*pb.UnlockWalletResponse).GetState() == pb.ResponseState_SUCCEEDED
+		vsym.Assert("A9-unknown-wallet-refused", !ok)
 	default:
 		res, err := vsym.Invoke("/v1.AccountManager/Unlock", callCtx(net.IPv4(10, 0, 0, 9), "stranger", nil), &pb.UnlockAccountRequest{Account: "W/a", Passphrase: []byte("pass")})
 		ok = err == nil && res.(*pb.UnlockAccountResponse).GetState() == pb.ResponseState_SUCCEEDED
